@@ -144,6 +144,53 @@ Proof.
     unfold bound in Hlen. replace (D + 1) with (S D) in Hlen by lia. lia.
 Qed.
 
+(* ---- what a check on function entry would buy (candidate repair of the tree-recursion finding): when every callee
+   of a call edge is a check node, a check-free path cannot descend, and the bound becomes linear in the ceiling *)
+Definition calls_checked (G : graph) : Prop :=
+  forall n c r, In (ECall c r) (edges G n) -> is_check G c = true.
+
+Definition pot2 (r : nat -> nat) (N : nat) (c : cfg) : nat := S (r (fst c)) + (N + 2) * length (snd c).
+
+Lemma pot2_step G r c c' :
+  valid_rank G r -> calls_checked G -> step G c c' ->
+  is_check G (fst c) = false -> is_check G (fst c') = false ->
+  pot2 r (length G) c' < pot2 r (length G) c.
+Proof.
+  intros [Hv Hb] Hcc Hs Hc Hc'. unfold pot2. inversion Hs; subst; cbn [fst snd length] in *.
+  - destruct (edges_in _ _ _ H) as (nd & E & Hin & Hck). rewrite Hck in Hc.
+    assert (r t < r n) by (apply (Hv n nd E Hc); eapply hsucc_in; [exact Hin|cbn; auto]). lia.
+  - rewrite (Hcc _ _ _ H) in Hc'. discriminate.
+  - destruct (edges_in _ _ _ H) as (nd & E & Hin & Hck). rewrite Hck in Hc.
+    assert (r c0 < r n) by (apply (Hv n nd E Hc); eapply hsucc_in; [exact Hin|cbn; auto]). lia.
+  - pose proof (Hb k). lia.
+Qed.
+
+Lemma path_length2 G r : valid_rank G r -> calls_checked G ->
+  forall l c0, is_path G (c0 :: l) -> no_check G (c0 :: l) -> length (c0 :: l) <= S (pot2 r (length G) c0).
+Proof.
+  intros Hv Hcc. induction l as [|c1 l IH]; intros c0 Hp Hn; [cbn; lia|].
+  destruct Hp as [Hs Hp].
+  assert (Hlt := pot2_step G r c0 c1 Hv Hcc Hs (Hn c0 (or_introl eq_refl)) (Hn c1 (or_intror (or_introl eq_refl)))).
+  assert (IH' := IH c1 Hp (fun c H => Hn c (or_intror H))). cbn [length] in *. lia.
+Qed.
+
+Lemma entry_checks_linear G D l :
+  all_cycles_checked G = true -> calls_checked G -> is_path G l -> depth_le D l ->
+  (length G + 2) * (D + 1) < length l ->
+  exists c, In c l /\ is_check G (fst c) = true.
+Proof.
+  intros Hok Hcc Hp Hd Hlen.
+  destruct (existsb (fun c => is_check G (fst c)) l) eqn:Ex; [apply existsb_exists in Ex; exact Ex|exfalso].
+  assert (Hn : no_check G l).
+  { intros c Hc. destruct (is_check G (fst c)) eqn:E; [|reflexivity].
+    assert (existsb (fun c => is_check G (fst c)) l = true) by (apply existsb_exists; eauto). congruence. }
+  apply ranked_ok_valid in Hok. set (r := fun n => if n <? length G then rk (compute_rank G) n else 0) in *.
+  destruct l as [|c0 l]; [cbn in Hlen; lia|].
+  pose proof (path_length2 G r Hok Hcc l c0 Hp Hn) as H1.
+  pose proof (Hd c0 (or_introl eq_refl)) as H2. destruct Hok as [_ Hb]. specialize (Hb (fst c0)).
+  unfold pot2 in H1. nia.
+Qed.
+
 (* ================================================================== B. the rank computation finds a ranking whenever one exists *)
 Lemma maxS_le f l b : (forall t, In t l -> S (f t) <= b) -> maxS f l <= b.
 Proof.
@@ -257,6 +304,14 @@ Proof.
     + apply list_beq_eq in E. auto.
     + assert (Hne : r <> sweep G r).
       { intros Heq. rewrite <- Heq in E at 1. assert (list_beq r r = true) by (apply list_beq_eq; reflexivity). congruence. }
+      assert (Hle' : forall t, rk (sweep G r) t <= r' t).
+      { intros t. unfold sweep, rk. replace t with (0 + t) at 2 by lia. apply sweep_from_below; [exact Hle|].
+        intros k nd Hk Hc t' Ht'. cbn. apply (Hv k nd Hk Hc t' Ht'). }
+      assert (Hov : existsb (fun x => length G <? x) (sweep G r) = false).
+      { destruct (existsb (fun x => length G <? x) (sweep G r)) eqn:Ex; [|reflexivity]. exfalso.
+        apply existsb_exists in Ex as (x & Hx & Hlt). apply Nat.ltb_lt in Hlt.
+        destruct (In_nth _ _ 0 Hx) as (t & _ & <-). specialize (Hle' t). specialize (Hb t). unfold rk in Hle'. lia. }
+      rewrite Hov.
       apply IH.
       * unfold sweep. apply sweep_from_length.
       * unfold sweep. apply sweep_from_mono. intros t. apply Forall2_le_nth. exact Hinf.
@@ -320,6 +375,7 @@ Section InstrInd.
     | ILoop c b => HLoop c b (all b)
     | IIf t e => HIf t e (all t) (all e)
     | IOther => HLeaf IOther I
+    | ICheck => HLeaf ICheck I
     | IBr l => HLeaf (IBr l) I
     | IBrIf l => HLeaf (IBrIf l) I
     | IBrTable ls d => HLeaf (IBrTable ls d) I
@@ -481,6 +537,7 @@ Proof.
   - (* leaves *)
     destruct i; try contradiction; cbn [comp sz] in *; apply all_at_cons; (split; [|apply all_at_nil]).
     + right. cbn. intros t [<-|[]]. left; lia.
+    + left. reflexivity.
     + right. cbn. intros t [<-|[]]. eapply lbl_tgt; [|apply lbl_nth; eassumption]. lia.
     + right. cbn. intros t [<-|[<-|[]]]; [eapply lbl_tgt; [|apply lbl_nth; eassumption]; lia|left; lia].
     + right. rewrite hsucc_seq. intros t Ht. apply in_map_iff in Ht as (l0 & <- & _).
@@ -545,8 +602,9 @@ Lemma insertion_complete pl p : pl_loop pl = true -> pl_tail pl = true ->
   all_cycles_checked (graph_of (place pl p)) = true.
 Proof.
   intros Hl Ht. apply checked_graph_accepted. cbn [place p_funcs]. apply Forall_forall. intros b Hb.
-  apply in_map_iff in Hb as (b0 & <- & _). apply forallb_flat_map. apply Forall_forall. intros i _.
-  apply place_checked; assumption.
+  apply in_map_iff in Hb as (b0 & <- & _). rewrite forallb_app. apply andb_true_iff. split.
+  - destruct (pl_entry pl); reflexivity.
+  - apply forallb_flat_map. apply Forall_forall. intros i _. apply place_checked; assumption.
 Qed.
 
 Lemma insertion_complete_both :
